@@ -172,5 +172,47 @@ def header_schemas():
     return out
 
 
-def view_schemas():
-    return [view_schema("vle", "littleEndian"), view_schema("vbe", "bigEndian")]
+def extra_schema(package, byte_order):
+    """More shapes (thorough tier): 64-bit dimension/length types, last field a
+    composite / array / followed by constants, levels with only data or only
+    groups, deeper composites, named encodings, three nesting levels."""
+    S = base_schema(package, byte_order,
+                    hdr=header(types=("uint32", "uint16", "uint8", "uint64"), order=("templateId", "blockLength", "version", "schemaId")),
+                    dims=[dim(), dim("dim64", bl="uint64", num="uint64"), dim("dim32x8", bl="uint32", num="uint8", offsets={"numInGroup": 6}),
+                          dim("dim8", bl="uint8", num="uint8")],
+                    datas=[vardata(), vardata("var8", "uint8", "uint8"), vardata("var64", "uint64", "char"), vardata("var16i", "uint16", "int8")])
+    S["types"] += [
+        T("u8t", "uint8"), T("u16t", "uint16"),
+        {"kind": "enum", "name": "e_named", "enc": "u16t", "values": [{"name": "N1", "value": "513"}]},
+        {"kind": "set", "name": "s_named", "enc": "u8t", "choices": [{"name": "n0", "index": 3}]},
+        {"kind": "composite", "name": "konly", "elements": [T("k1", "uint32", presence="constant", const="5"), T("k2", "char", presence="constant", length=2, const="zz")]},
+        {"kind": "composite", "name": "deep", "elements": [
+            T("a", "int8"),
+            {"kind": "composite", "name": "l1", "offset": 4, "elements": [
+                {"kind": "ref", "name": "pt", "type": "point"},
+                {"kind": "composite", "name": "l2", "elements": [T("z", "double"), {"kind": "ref", "name": "en", "type": "e_named"}]}]},
+            {"kind": "ref", "name": "st", "type": "s_named"}]},
+    ]
+    m = S["messages"]
+    m.append(G("lastcomp", 1, fields=[F("a", 1, "uint8"), F("k", 2, "cconst"), F("d", 3, "deep", offset=3)]))
+    m.append(G("lastarr", 2, fields=[F("a", 1, "e_named"), F("s", 2, "str4"), F("k", 3, "sconst")], blockLength=9,
+               groups=[G("g", 10, dimensionType="dim8", fields=[F("b", 1, "bytes3"), F("k", 2, "cconst")])]))
+    m.append(G("onlydata", 3, fields=[], data=[D("d1", 1, "var8"), D("d2", 2, "var64"), D("d3", 3, "var16i")]))
+    m.append(G("onlygroups", 4, fields=[],
+               groups=[G("a", 1, dimensionType="dim64", fields=[F("x", 1, "uint64")]),
+                       G("b", 2, dimensionType="dim32x8", fields=[F("y", 1, "s_named"), F("z", 2, "float", offset=3)], blockLength=8)]))
+    m.append(G("deep3", 5, fields=[F("x", 1, "int16")],
+               groups=[G("l1", 1, fields=[F("f1", 1, "uint8")],
+                         groups=[G("l2", 2, dimensionType="dim8", fields=[F("f2", 1, "u16t")],
+                                   groups=[G("l3", 3, fields=[F("f3", 1, "konly"), F("f3b", 2, "uint8")])],
+                                   data=[D("d2", 4, "var8")])],
+                         data=[D("d1", 5, "var16i")])],
+               data=[D("d0", 6)]))
+    return S
+
+
+def view_schemas(tier="quick"):
+    base = [view_schema("vle", "littleEndian"), view_schema("vbe", "bigEndian")]
+    if tier == "thorough":
+        base += [extra_schema("xle", "littleEndian"), extra_schema("xbe", "bigEndian")]
+    return base
